@@ -2,6 +2,11 @@ package main
 
 // The only place where identifiers of /repo appear: a table mapping roles to program entities, resolved by type
 // information on every run. A role that no longer resolves makes the rules that need it undecided.
+//
+// Only EXPORTED identifiers (the API, database/sql/driver methods, generated protobuf names) are looked up by name here.
+// Every unexported entity — function, method, type, field, package-level variable — is resolved from the shape of the
+// program: rules_ag5.go (parserShape) for the query parser, rules_ag10.go (progShape) for everything else; today's
+// unexported names appear there only as first guesses and tie-breakers.
 
 import (
 	"go/types"
@@ -37,6 +42,15 @@ type Anchors struct {
 	ExprIface, CacheIface, GetterIface                    *types.Named
 	ExprImpls                                             []*types.Named
 	KeySchema, KeyRows, KeyValue                          *ssa.Global
+	// (structurally resolved, rules_ag10.go) names of the unexported interface methods, row counters, LRU bookkeeping
+	// fields, the group-by working types
+	EvalName, KeyName, GetColName             string
+	IdxRowsF, MemRowsF, BigRowsF              *types.Var
+	LRUCurF, LRUMaxF, ItemKeyF, ItemSizeF     *types.Var
+	ResGroupT, GroupLevelT, GroupValT         *types.Named
+	ResGroupBMF, ResGroupFieldsF              *types.Var
+	LevelColF, LevelValsF, ValIdxF, ValValueF *types.Var
+	SH                                        *progShape
 
 	// queryparser: the exported entry points are resolved by name; everything unexported comes from the structural
 	// resolution in rules_ag5.go (PS), so that renaming unexported identifiers neither alarms nor disables a rule
@@ -49,10 +63,12 @@ type Anchors struct {
 
 	// driver
 	DrvOpenFile, DrvOpen, FileConnClose, NewRows, FileStmtQuery, GrpcStmtQuery, NumInput *ssa.Function
-	DriverT, FileConnT                                                                   *types.Named
+	DriverT, FileConnT, FileStmtT, GrpcStmtT, RowsT, RowT                                *types.Named
+	RowsColsF, RowFieldsF, RowCountF                                                     *types.Var
 
 	// cmd
 	CreateCmd, NormalizeHeader, Main, ServerQuery, ServerCmd, SchemaCmd *ssa.Function
+	ServerT                                                             *types.Named
 
 	// openfile
 	OpenFileFn *ssa.Function
@@ -81,6 +97,13 @@ func resolveAnchors(c *Ctx) *Anchors {
 		}
 		return gl
 	}
+	v := func(role string, fld *types.Var) *types.Var {
+		if fld == nil {
+			a.missing = append(a.missing, role)
+		}
+		return fld
+	}
+	// ---- exported entities: by name
 	a.Execute = f("index.execute", w.method(pkgRoot, "Index", "Execute"))
 	a.GetSchema = f("index.getschema", w.method(pkgRoot, "Index", "GetSchema"))
 	a.IndexClose = f("index.close", w.method(pkgRoot, "Index", "Close"))
@@ -89,8 +112,6 @@ func resolveAnchors(c *Ctx) *Anchors {
 	a.WithCache = f("index.opt.cache", w.fn(pkgRoot, "WithCache"))
 	a.WithPreloaded = f("index.opt.preload", w.fn(pkgRoot, "WithPreloadedData"))
 	a.WithMetrics = f("index.opt.metrics", w.fn(pkgRoot, "WithIndexMetrics"))
-	a.NewPreloaded = f("getter.preload.new", w.fn(pkgRoot, "newPreloadedColGetter"))
-	a.GetValueIndex = f("hash.value", w.fn(pkgRoot, "getValueIndex"))
 	a.LRUGet = f("cache.lru.get", w.method(pkgRoot, "LRUCache", "Get"))
 	a.LRUPut = f("cache.lru.put", w.method(pkgRoot, "LRUCache", "Put"))
 	a.NewLRU = f("cache.lru.new", w.fn(pkgRoot, "NewLRUCache"))
@@ -101,34 +122,30 @@ func resolveAnchors(c *Ctx) *Anchors {
 	a.BigFlush = f("writer.big.flush", w.method(pkgRoot, "BigIndexWriter", "Flush"))
 	a.NewBig = f("writer.big.new", w.fn(pkgRoot, "NewBigIndexWriter"))
 	a.NewMem = f("writer.mem.new", w.fn(pkgRoot, "NewIndexWriter"))
-	a.SchemaAdd = f("schema.add", w.method(pkgRoot, "schema", "add"))
 	a.IndexT = t("index.type", w.namedType(pkgRoot, "Index"))
 	a.QueryT = t("query.type", w.namedType(pkgRoot, "Query"))
-	a.SchemaT = t("schema.type", w.namedType(pkgRoot, "schema"))
-	a.ColumnT = t("schema.column", w.namedType(pkgRoot, "column"))
 	a.LRUT = t("cache.lru", w.namedType(pkgRoot, "LRUCache"))
-	a.LRUItemT = t("cache.lru.item", w.namedType(pkgRoot, "lruCacheItem"))
-	a.PreloadedT = t("getter.preloaded", w.namedType(pkgRoot, "preloadedColGetter"))
-	a.OnDemandT = t("getter.ondemand", w.namedType(pkgRoot, "onDemandColGetter"))
 	a.MemWriterT = t("writer.mem", w.namedType(pkgRoot, "IndexWriter"))
 	a.BigWriterT = t("writer.big", w.namedType(pkgRoot, "BigIndexWriter"))
 	a.ExprIface = t("expr.iface", w.namedType(pkgRoot, "Expression"))
 	a.CacheIface = t("cache.iface", w.namedType(pkgRoot, "Cache"))
-	a.GetterIface = t("getter.iface", w.namedType(pkgRoot, "colGetter"))
-	a.KeySchema = g("key.schema", w.global(pkgRoot, "keySchema"))
-	a.KeyRows = g("key.rows", w.global(pkgRoot, "keyNextRowID"))
-	a.KeyValue = g("key.value", w.global(pkgRoot, "keyPrefixValue"))
 	if a.ExprIface != nil {
 		a.ExprImpls = w.implementers(pkgRoot, a.ExprIface)
 		if len(a.ExprImpls) == 0 {
 			a.missing = append(a.missing, "expr.impls")
 		}
 	}
-
 	a.ParseQuery = f("parse.entry", w.fn(pkgParser, "ParseQuery"))
 	a.Walk = f("walk.fn", w.fn(pkgParser, "Walk"))
 	a.ReplacePH = f("bind.fn", w.fn(pkgParser, "ReplacePlaceholders"))
 	a.QueryToString = f("fmt.entry", w.fn(pkgParser, "QueryToString"))
+	a.ToQuery = f("conv.toquery", w.fn(pkgConvert, "ToQuery"))
+	a.ToPBResult = f("conv.topb", w.fn(pkgConvert, "ToProtobufResult"))
+	a.ToResult = f("conv.frompb", w.fn(pkgConvert, "ToResult"))
+	a.Main = f("cmd.main", w.fn(pkgCmd, "main"))
+	a.OpenFileFn = f("openfile.fn", w.fn(pkgOpen, "OpenFile"))
+
+	// ---- unexported entities of the query parser: by shape (rules_ag5.go)
 	a.PS = resolveParserShape(c)
 	a.ParserParse = f("parse.top", a.PS.Parse)
 	a.ParseSimple = f("parse.simple", a.PS.ParseSimple)
@@ -137,29 +154,58 @@ func resolveAnchors(c *Ctx) *Anchors {
 	a.Lex = f("lex.new", a.PS.LexNew)
 	a.LexRun = f("lex.run", a.PS.LexRun)
 
-	a.ToQuery = f("conv.toquery", w.fn(pkgConvert, "ToQuery"))
-	a.ToExpr = f("conv.toexpr", w.fn(pkgConvert, "toExpr"))
-	a.ToPBResult = f("conv.topb", w.fn(pkgConvert, "ToProtobufResult"))
-	a.ToResult = f("conv.frompb", w.fn(pkgConvert, "ToResult"))
-
-	a.DrvOpen = f("drv.open", w.method(pkgDriver, "updogDriver", "Open"))
-	a.DrvOpenFile = f("drv.openfile", w.method(pkgDriver, "updogDriver", "openFile"))
-	a.FileConnClose = f("drv.conn.close", w.method(pkgDriver, "fileConn", "Close"))
-	a.NewRows = f("drv.rows.new", w.fn(pkgDriver, "newRows"))
-	a.FileStmtQuery = f("drv.filestmt.query", w.method(pkgDriver, "fileStmt", "query"))
-	a.GrpcStmtQuery = f("drv.grpcstmt.query", w.method(pkgDriver, "grpcStmt", "query"))
-	a.NumInput = f("drv.numinput", w.fn(pkgDriver, "numInput"))
-	a.DriverT = t("drv.type", w.namedType(pkgDriver, "updogDriver"))
-	a.FileConnT = t("drv.conn", w.namedType(pkgDriver, "fileConn"))
-
-	a.CreateCmd = f("cmd.create", w.fn(pkgCmd, "createCmd"))
-	a.NormalizeHeader = f("cmd.normalize", w.fn(pkgCmd, "normalizeHeader"))
-	a.Main = f("cmd.main", w.fn(pkgCmd, "main"))
-	a.ServerQuery = f("srv.handler", w.method(pkgCmd, "server", "Query"))
-	a.ServerCmd = f("srv.cmd", w.fn(pkgCmd, "serverCmd"))
-	a.SchemaCmd = f("cmd.schema", w.fn(pkgCmd, "schemaCmd"))
-
-	a.OpenFileFn = f("openfile.fn", w.fn(pkgOpen, "OpenFile"))
+	// ---- unexported entities of updog, convert, driver, cmd/updog: by shape (rules_ag10.go)
+	a.SH = resolveProgShape(c, a)
+	evalName, keyName, getColName = a.EvalName, a.KeyName, a.GetColName
+	if a.EvalName == "" {
+		a.missing = append(a.missing, "expr.eval")
+	}
+	if a.KeyName == "" {
+		a.missing = append(a.missing, "expr.cachekey")
+	}
+	if a.GetColName == "" {
+		a.missing = append(a.missing, "getter.getcol")
+	}
+	f("getter.preload.new", a.NewPreloaded)
+	f("hash.value", a.GetValueIndex)
+	f("schema.add", a.SchemaAdd)
+	t("schema.type", a.SchemaT)
+	t("schema.column", a.ColumnT)
+	t("cache.lru.item", a.LRUItemT)
+	t("getter.preloaded", a.PreloadedT)
+	t("getter.ondemand", a.OnDemandT)
+	t("getter.iface", a.GetterIface)
+	g("key.schema", a.KeySchema)
+	g("key.rows", a.KeyRows)
+	g("key.value", a.KeyValue)
+	v("index.rows", a.IdxRowsF)
+	v("writer.mem.rows", a.MemRowsF)
+	v("writer.big.rows", a.BigRowsF)
+	v("cache.lru.cur", a.LRUCurF)
+	v("cache.lru.max", a.LRUMaxF)
+	v("cache.lru.item.key", a.ItemKeyF)
+	v("cache.lru.item.size", a.ItemSizeF)
+	t("groupby.partial", a.ResGroupT)
+	t("groupby.level", a.GroupLevelT)
+	t("groupby.value", a.GroupValT)
+	f("conv.toexpr", a.ToExpr)
+	f("drv.open", a.DrvOpen)
+	f("drv.openfile", a.DrvOpenFile)
+	f("drv.conn.close", a.FileConnClose)
+	f("drv.rows.new", a.NewRows)
+	f("drv.filestmt.query", a.FileStmtQuery)
+	f("drv.grpcstmt.query", a.GrpcStmtQuery)
+	f("drv.numinput", a.NumInput)
+	t("drv.type", a.DriverT)
+	t("drv.conn", a.FileConnT)
+	t("drv.filestmt", a.FileStmtT)
+	t("drv.grpcstmt", a.GrpcStmtT)
+	t("drv.rows", a.RowsT)
+	f("cmd.create", a.CreateCmd)
+	f("cmd.normalize", a.NormalizeHeader)
+	f("srv.handler", a.ServerQuery)
+	f("srv.cmd", a.ServerCmd)
+	f("cmd.schema", a.SchemaCmd)
 	return a
 }
 
@@ -218,6 +264,10 @@ func (c *Ctx) need(rule string, vals ...interface{}) bool {
 	}
 	if !ok {
 		msg := "an anchor this rule needs no longer resolves (renamed or removed): " + joinStrings(c.a.missing)
+		if c.a.SH != nil {
+			// structurally resolved entities of updog/convert/driver/cmd: say why the shape was not recognised
+			msg += c.a.SH.whyText()
+		}
 		if c.a.PS != nil && (strings.HasPrefix(rule, "C09") || strings.HasPrefix(rule, "C10")) {
 			// structurally resolved parser entities: say why the shape was not recognised
 			var roles []string
